@@ -10,7 +10,7 @@ added and why), one theorem per program counter / actor.
 namespace Rpyc.Conc.Serve
 
 /-- all shared components `InvS` looks at are definitionally unchanged -/
-local macro "same_glob" : term => `(⟨rfl, rfl, rfl, rfl, rfl, rfl, rfl, Nat.le_refl _, fun _ h => h⟩)
+local macro "same_glob" : term => `(⟨rfl, rfl, rfl, rfl, rfl, rfl, rfl, Nat.le_refl _, fun _ h => h, rfl⟩)
 
 /-- only thread `t`'s program counter (and things `InvS` does not mention) changed -/
 theorem InvS'.pcOnly {s s' : St} {t : Tid} {p : PC} (p' : PC) (h : InvS' s) (hp : (s.loc t).pc = p)
@@ -44,10 +44,13 @@ theorem invS'_w0 {s : St} {t : Tid} (h : InvS' s) (hp : (s.loc t).pc = .w0) : In
 theorem invS'_s0 {s : St} {t : Tid} (h : InvS' s) (hp : (s.loc t).pc = .s0) : InvS' (doS0 s t (s.loc t)) := by
   unfold doS0
   have ht := h.thr t
+  have hra : (s.loc t).raising = false := ht.raising_false (by rw [hp]; rfl)
   refine h.locOnly' _ same_glob rfl ?_ ?_
   · exact {
       bg_pc := by simp [PC.client]
       nowait_ok := by simpa [hp, PC.bgLoop] using ht.nowait_ok
+      raising_pc := by simp [hra]
+      nodata := by simp [hra]
       seq_issued := by simpa [Loc.hasSeq, hp] using ht.seq_issued
       at_c1 := by simp
       at_c2 := by simp
@@ -81,26 +84,29 @@ theorem invS'_s2 {s : St} {t : Tid} (h : InvS' s) (hp : (s.loc t).pc = .s2) : In
 
 theorem invS'_s2f {s : St} {t : Tid} (h : InvS' s) (hp : (s.loc t).pc = .s2f) :
     InvS' { setLoc s t (leaveServe (s.loc t)) with condLock := none } :=
-  h.locOnly' _ same_glob rfl ((h.thr t).leaveServe (by rw [hp]; decide)) (leaveServe_hasSeq (by rw [hp]; decide))
+  h.locOnly' _ same_glob rfl ((h.thr t).leaveServe (by rw [hp]; decide) ((h.thr t).raising_false (by rw [hp]; rfl)))
+    (leaveServe_hasSeq (by rw [hp]; decide))
 
 theorem invS'_q1 {s : St} {t : Tid} (h : InvS' s) (hp : (s.loc t).pc = .q1) :
     InvS' (if expiredAt (s.loc t).pdl s.now then setLoc s t { s.loc t with pc := .idle, bg := false, nowait := false }
       else setLoc s t { s.loc t with pc := .s0 }) := by
   have ht := h.thr t
+  have hra : (s.loc t).raising = false := ht.raising_false (by rw [hp]; rfl)
   split
-  · refine h.locOnly' _ same_glob rfl (thrOK_idle ht rfl rfl rfl ?_ rfl rfl ht.result_ok) (by simp [Loc.hasSeq])
-    cases hc : (s.loc t).cb with
-    | none => rfl
-    | some q => have := ht.cb_pc q hc; rw [hp] at this; cases this
+  · refine h.locOnly' _ same_glob rfl (thrOK_idle ht rfl rfl rfl hra ?_ rfl rfl ht.result_ok) (by simp [Loc.hasSeq])
+    exact ht.cb_none (by rw [hp]; rfl)
   · exact h.pcOnly .s0 hp (by decide) same_glob rfl
 
 theorem invS'_s2w {s : St} {t : Tid} (h : InvS' s) (hp : (s.loc t).pc = .s2w) : InvS' (doS2w s t (s.loc t)) := by
   unfold doS2w
   have ht := h.thr t
+  have hra : (s.loc t).raising = false := ht.raising_false (by rw [hp]; rfl)
   refine h.locOnly' _ same_glob rfl ?_ ?_
   · exact {
       bg_pc := by simp [PC.client]
       nowait_ok := by simpa [hp, PC.bgLoop] using ht.nowait_ok
+      raising_pc := by simp [hra]
+      nodata := by simp [hra]
       seq_issued := by simpa [Loc.hasSeq, hp] using ht.seq_issued
       at_c1 := by simp
       at_c2 := by simp
@@ -126,15 +132,15 @@ theorem invS'_zz {s s' : St} {t : Tid} (h : InvS' s) (hp : (s.loc t).pc = .zz)
     · cases hs; exact h.pcOnly .s2r hp (by decide) same_glob rfl
     · cases hs
 
-theorem invS'_leave {s : St} {t : Tid} (h : InvS' s) (hp : (s.loc t).pc ≠ .idle) :
-    InvS' (setLoc s t (leaveServe (s.loc t))) :=
-  h.locOnly' _ same_glob rfl ((h.thr t).leaveServe hp) (leaveServe_hasSeq hp)
+theorem invS'_leave {s : St} {t : Tid} (h : InvS' s) (hp : (s.loc t).pc ≠ .idle)
+    (hr : (s.loc t).raising = false) : InvS' (setLoc s t (leaveServe (s.loc t))) :=
+  h.locOnly' _ same_glob rfl ((h.thr t).leaveServe hp hr) (leaveServe_hasSeq hp)
 
 theorem invS'_s2r {s s' : St} {t : Tid} (h : InvS' s) (hp : (s.loc t).pc = .s2r)
     (hs : doS2r s t (s.loc t) = some s') : InvS' s' := by
   unfold doS2r at hs
   split at hs
-  · cases hs; exact invS'_leave h (by rw [hp]; decide)
+  · cases hs; exact invS'_leave h (by rw [hp]; decide) ((h.thr t).raising_false (by rw [hp]; rfl))
   · cases hs
 
 theorem invS'_s3 {s : St} {t : Tid} (h : InvS' s) (hp : (s.loc t).pc = .s3) : InvS' (doS3 s t (s.loc t)) :=
@@ -144,11 +150,14 @@ theorem invS'_s3 {s : St} {t : Tid} (h : InvS' s) (hp : (s.loc t).pc = .s3) : In
 theorem invS'_p0_none {s : St} {t : Tid} (p' : PC) (hp' : p' = .x0 ∨ p' = .r0) (h : InvS' s)
     (hp : (s.loc t).pc = .p0) : InvS' (setLoc s t { s.loc t with pc := p', data := none }) := by
   have ht := h.thr t
+  have hra : (s.loc t).raising = false := ht.raising_false (by rw [hp]; rfl)
   refine h.locOnly' _ same_glob rfl ?_ (by simp only [Loc.hasSeq, hp]; simp; exact fun a _ => a)
   rcases hp' with rfl | rfl <;>
   exact {
     bg_pc := by simp [PC.client]
     nowait_ok := by simpa [hp, PC.bgLoop] using ht.nowait_ok
+    raising_pc := by simp [hra]
+    nodata := by simp [hra]
     seq_issued := by simpa [Loc.hasSeq, hp] using ht.seq_issued
     at_c1 := by simp
     at_c2 := by simp
@@ -164,18 +173,21 @@ theorem invS'_p0_none {s : St} {t : Tid} (p' : PC) (hp' : p' = .x0 ∨ p' = .r0)
 theorem invS'_p0 {s s' : St} {t : Tid} (h : InvS' s) (hp : (s.loc t).pc = .p0)
     (hs : doP0 s t (s.loc t) = some s') : InvS' s' := by
   have ht := h.thr t
+  have hra : (s.loc t).raising = false := ht.raising_false (by rw [hp]; rfl)
   unfold doP0 at hs
   split at hs
   · cases hs; exact invS'_p0_none _ (.inl rfl) h hp
   split at hs
   · rename_i f rest heq
     cases hs
-    refine h.locOnly' _ ⟨rfl, rfl, rfl, rfl, rfl, rfl, rfl, Nat.le_refl _, fun g hg => ?_⟩ rfl ?_ ?_
+    refine h.locOnly' _ ⟨rfl, rfl, rfl, rfl, rfl, rfl, rfl, Nat.le_refl _, fun g hg => ?_, rfl⟩ rfl ?_ ?_
     · show g ∈ s.chan
       rw [heq]; exact List.mem_cons_of_mem _ hg
     · exact {
         bg_pc := by simp [PC.client]
         nowait_ok := by simpa [hp, PC.bgLoop] using ht.nowait_ok
+        raising_pc := by simp [hra]
+        nodata := by simp [hra]
         seq_issued := by simpa [Loc.hasSeq, hp] using ht.seq_issued
         at_c1 := by simp
         at_c2 := by simp
@@ -201,15 +213,30 @@ theorem invS'_p0 {s s' : St} {t : Tid} (h : InvS' s) (hp : (s.loc t).pc = .p0)
 /-- `self.close(); raise` -/
 theorem invS'_x0 {s : St} {t : Tid} (h : InvS' s) (hp : (s.loc t).pc = .x0) : InvS' (doX0 s t (s.loc t)) := by
   have ht := h.thr t
-  have ht' : ThrOK s t { s.loc t with pc := .r0, raising := true } := (ht.setRaising true).setPc .r0 hp (by decide)
+  have hdn : (s.loc t).data = none := ht.nodata (.inl hp)
+  have ht' : ThrOK s t { s.loc t with pc := .r0, raising := true } := {
+    bg_pc := by simp [PC.client]
+    nowait_ok := by simpa [hp, PC.bgLoop] using ht.nowait_ok
+    raising_pc := by simp [PC.holding]
+    nodata := fun _ => hdn
+    seq_issued := by simpa [Loc.hasSeq, hp] using ht.seq_issued
+    at_c1 := by simp
+    at_c2 := by simp
+    cb_pc := by simpa [hp, PC.completing] using ht.cb_pc
+    completing := by simp [PC.completing]
+    data_answer := ht.data_answer
+    at_w10 := by simp
+    result_ok := ht.result_ok
+    self_dispatch := fun _ _ _ => .inr rfl
+    dl_ttl := by simpa [Loc.hasSeq, hp, PC.inServe] using ht.dl_ttl
+    wdl_le := by simp }
   unfold doX0
   split
   · exact h.locOnly' _ same_glob rfl ht' (by simp [Loc.hasSeq, hp])
-  · refine h.step' t _ rfl (by simp [Loc.hasSeq, hp]) ?_ ?_ ?_
-    · exact h.glob.clearReg rfl rfl rfl rfl rfl rfl (Nat.le_succ _) (fun _ => .inr rfl)
-    · exact ht'.clearReg h.glob rfl rfl rfl rfl rfl rfl (fun _ => .inr rfl)
-    · intro u _
-      exact (h.thr u).clearReg h.glob rfl rfl rfl rfl rfl rfl (fun _ => .inr rfl)
+  · refine h.step' t _ rfl (by simp [Loc.hasSeq, hp])
+      (h.glob.close (t := t) ⟨rfl, rfl, rfl, rfl, rfl, rfl, rfl, rfl, rfl, rfl⟩)
+      (ht'.close h.glob ⟨rfl, rfl, rfl, rfl, rfl, rfl, rfl, rfl, rfl, rfl⟩ (fun _ => rfl))
+      (fun u hu => (h.thr u).close h.glob ⟨rfl, rfl, rfl, rfl, rfl, rfl, rfl, rfl, rfl, rfl⟩ (fun e => absurd e hu))
 
 theorem invS'_r0 {s : St} {t : Tid} (h : InvS' s) (hp : (s.loc t).pc = .r0) : InvS' (doR0 s t (s.loc t)) :=
   h.pcOnly .n0 hp (by decide) same_glob rfl
@@ -234,12 +261,14 @@ theorem invS'_d0 {s : St} {t : Tid} (h : InvS' s) (hp : (s.loc t).pc = .d0) : In
   · exact h.pcOnly .d1 hp (by decide) same_glob rfl
   · split
     · split
-      · exact h.locOnly' _ same_glob rfl (thrOK_idle ht rfl rfl rfl rfl rfl rfl ht.result_ok) (by simp [Loc.hasSeq])
+      · exact h.locOnly' _ same_glob rfl (thrOK_idle ht rfl rfl rfl rfl rfl rfl rfl ht.result_ok)
+          (by simp [Loc.hasSeq])
       · rename_i hb
         have hb' : (s.loc t).bg = false := by simpa using hb
         exact h.locOnly' _ same_glob rfl
-          (thrOK_idle ht rfl hb' (ht.nowait_false_of_bg hb') rfl rfl rfl (by simp)) (by simp [Loc.hasSeq])
-    · exact invS'_leave h (by rw [hp]; decide)
+          (thrOK_idle ht rfl hb' (ht.nowait_false_of_bg hb') rfl rfl rfl rfl (by simp)) (by simp [Loc.hasSeq])
+    · rename_i hr
+      exact invS'_leave h (by rw [hp]; decide) (by simpa using hr)
 
 theorem invS'_d2 {s s' : St} {t : Tid} (h : InvS' s) (hp : (s.loc t).pc = .d2)
     (hs : doD2 s t (s.loc t) = some s') : InvS' s' := by
@@ -247,17 +276,20 @@ theorem invS'_d2 {s s' : St} {t : Tid} (h : InvS' s) (hp : (s.loc t).pc = .d2)
   split at hs
   · cases hs
   · split at hs
-    · cases hs; exact invS'_leave h (by rw [hp]; decide)
+    · cases hs; exact invS'_leave h (by rw [hp]; decide) ((h.thr t).raising_false (by rw [hp]; rfl))
     · cases hs; exact h.pcOnly .d3 hp (by decide) same_glob rfl
 
 /-- the call is over (or the serving thread was stopped): nothing is claimed about the thread except its result -/
 theorem ThrOK.toIdle {s : St} {t : Tid} {l : Loc} (h : ThrOK s t l) (hc : l.pc.completing = false)
-    (hn : l.nowait = false)
+    (hn : l.nowait = false) (hra : l.raising = false)
     (r : Option Outcome)
-    (hr : ∀ e o, r = some (.value e o) → ∃ e' v, s.answer l.seq = some (e', v) ∧ e = some e' ∧ o = some v) :
+    (hr : ∀ e o, r = some (.value e o) → ∃ e' v, s.answer l.seq = some (e', v) ∧ e = some e' ∧ o = some v ∧
+      (s.cells l.seq).ready = true) :
     ThrOK s t { l with pc := .idle, bg := false, result := r } where
   bg_pc := by simp
   nowait_ok := by simp [hn]
+  raising_pc := by simp [hra]
+  nodata := by simp [hra]
   seq_issued := by simp [Loc.hasSeq]
   at_c1 := by simp
   at_c2 := by simp
@@ -272,6 +304,7 @@ theorem ThrOK.toIdle {s : St} {t : Tid} {l : Loc} (h : ThrOK s t l) (hc : l.pc.c
 
 theorem invS'_w9 {s : St} {t : Tid} (h : InvS' s) (hp : (s.loc t).pc = .w9) : InvS' (doW9 s t (s.loc t)) := by
   have ht := h.thr t
+  have hra : (s.loc t).raising = false := ht.raising_false (by rw [hp]; rfl)
   have hb : (s.loc t).bg = false := ht.bg_false_of_client (by rw [hp]; rfl)
   unfold doW9
   split
@@ -280,6 +313,8 @@ theorem invS'_w9 {s : St} {t : Tid} (h : InvS' s) (hp : (s.loc t).pc = .w9) : In
     exact {
       bg_pc := by simp [hb]
       nowait_ok := by simp [ht.nowait_false_of_bg hb]
+      raising_pc := by simp [hra]
+      nodata := by simp [hra]
       seq_issued := by simpa [Loc.hasSeq, hp] using ht.seq_issued
       at_c1 := by simp
       at_c2 := by simp
@@ -292,18 +327,19 @@ theorem invS'_w9 {s : St} {t : Tid} (h : InvS' s) (hp : (s.loc t).pc = .w9) : In
       dl_ttl := by simp [PC.inServe]
       wdl_le := by simp }
   · refine h.locOnly' _ same_glob rfl ?_ (by simp [Loc.hasSeq])
-    have := ht.toIdle (by rw [hp]; rfl) (ht.nowait_false_of_bg hb) (some .timeout) (by simp)
+    have := ht.toIdle (by rw [hp]; rfl) (ht.nowait_false_of_bg hb) hra (some .timeout) (by simp)
     rw [← hb] at this
     exact this
 
 theorem invS'_w10 {s : St} {t : Tid} (h : InvS' s) (hp : (s.loc t).pc = .w10) : InvS' (doW10 s t (s.loc t)) := by
   have ht := h.thr t
+  have hra : (s.loc t).raising = false := ht.raising_false (by rw [hp]; rfl)
   have hb : (s.loc t).bg = false := ht.bg_false_of_client (by rw [hp]; rfl)
   unfold doW10
   refine h.locOnly' _ same_glob rfl ?_ (by simp [Loc.hasSeq])
   have hr := ht.at_w10 ((hasSeq_iff _).2 ⟨hb, by rw [hp]; decide⟩) hp
   obtain ⟨_, ho, he⟩ := h.glob.ready_compl _ hr
-  have := ht.toIdle (by rw [hp]; rfl) (ht.nowait_false_of_bg hb) (some (.value (s.cells (s.loc t).seq).isExc (s.cells (s.loc t).seq).obj)) (by
+  have := ht.toIdle (by rw [hp]; rfl) (ht.nowait_false_of_bg hb) hra (some (.value (s.cells (s.loc t).seq).isExc (s.cells (s.loc t).seq).obj)) (by
     intro e o heq
     simp only [Option.some.injEq, Outcome.value.injEq] at heq
     obtain ⟨rfl, rfl⟩ := heq
@@ -314,7 +350,7 @@ theorem invS'_w10 {s : St} {t : Tid} (h : InvS' s) (hp : (s.loc t).pc = .w10) : 
     rw [h1] at h2
     simp only [Option.some.injEq, Prod.mk.injEq] at h2
     obtain ⟨rfl, rfl⟩ := h2
-    exact ⟨e1, v, h1, he', hv⟩)
+    exact ⟨e1, v, h1, he', hv, hr⟩)
   rw [← hb] at this
   exact this
 
@@ -329,10 +365,13 @@ theorem invS'_bS {s : St} {t : Tid} (h : InvS' s) (hp : (s.loc t).pc = .bS) :
 theorem invS'_bg {s : St} {t : Tid} (h : InvS' s) (hp : (s.loc t).pc = .idle) (hb : (s.loc t).bg = false) :
     InvS' (setLoc s t { s.loc t with pc := .b0, bg := true }) := by
   have ht := h.thr t
+  have hra : (s.loc t).raising = false := ht.raising_false (by rw [hp]; rfl)
   refine h.locOnly' _ same_glob rfl ?_ (by simp [Loc.hasSeq])
   exact {
     bg_pc := by simp [PC.client]
     nowait_ok := by simp [ht.nowait_false_of_bg hb]
+    raising_pc := by simp [hra]
+    nodata := by simp [hra]
     seq_issued := by simp [Loc.hasSeq]
     at_c1 := by simp
     at_c2 := by simp
@@ -348,10 +387,13 @@ theorem invS'_bg {s : St} {t : Tid} (h : InvS' s) (hp : (s.loc t).pc = .idle) (h
 theorem invS'_pollAll {s : St} {t : Tid} (d : Nat) (h : InvS' s) (hp : (s.loc t).pc = .idle) :
     InvS' (setLoc s t { s.loc t with pc := .s0, bg := true, nowait := true, pdl := some (s.now + d) }) := by
   have ht := h.thr t
+  have hra : (s.loc t).raising = false := ht.raising_false (by rw [hp]; rfl)
   refine h.locOnly' _ same_glob rfl ?_ (by simp [Loc.hasSeq])
   exact {
     bg_pc := by simp [PC.client]
     nowait_ok := by simp [PC.bgLoop]
+    raising_pc := by simp [hra]
+    nodata := by simp [hra]
     seq_issued := by simp [Loc.hasSeq]
     at_c1 := by simp
     at_c2 := by simp
@@ -366,17 +408,19 @@ theorem invS'_pollAll {s : St} {t : Tid} (d : Nat) (h : InvS' s) (hp : (s.loc t)
 
 theorem invS'_stop {s : St} {t : Tid} (h : InvS' s) (hp : (s.loc t).pc = .b0) :
     InvS' (setLoc s t { s.loc t with pc := .idle, bg := false }) :=
-  h.locOnly' _ same_glob rfl ((h.thr t).toIdle (by rw [hp]; rfl) ((h.thr t).nowait_false_of_bgLoop (by rw [hp]; rfl)) _ (h.thr t).result_ok) (by simp [Loc.hasSeq])
+  h.locOnly' _ same_glob rfl ((h.thr t).toIdle (by rw [hp]; rfl) ((h.thr t).nowait_false_of_bgLoop (by rw [hp]; rfl))
+    ((h.thr t).raising_false (by rw [hp]; rfl)) _ (h.thr t).result_ok) (by simp [Loc.hasSeq])
 
 /-! ### steps that change the shared state -/
 
 theorem invS'_tick {s : St} (d : Nat) (h : InvS' s) : InvS' { s with now := s.now + d } :=
-  h.locOnly 0 ⟨rfl, rfl, rfl, rfl, rfl, rfl, rfl, Nat.le_add_right _ _, fun _ h => h⟩ (fun _ _ => rfl) (h.thr 0)
+  h.locOnly 0 ⟨rfl, rfl, rfl, rfl, rfl, rfl, rfl, Nat.le_add_right _ _, fun _ h => h, rfl⟩ (fun _ _ => rfl) (h.thr 0)
     (fun x => ⟨x, rfl⟩)
 
 theorem invS'_call {s : St} {t : Tid} (tmo : Option Nat) (h : InvS' s) (hp : (s.loc t).pc = .idle)
     (hb : (s.loc t).bg = false) : InvS' (doCall s t (s.loc t) tmo) := by
   have ht := h.thr t
+  have hra : (s.loc t).raising = false := ht.raising_false (by rw [hp]; rfl)
   have hlt : ∀ u, (s.loc u).hasSeq = true → (s.loc u).seq < s.seqCounter :=
     fun u hu => h.glob.issued_lt _ ((h.thr u).seq_issued hu)
   have hfr := h.glob.fresh s.seqCounter (Nat.le_refl _)
@@ -394,6 +438,7 @@ theorem invS'_call {s : St} {t : Tid} (tmo : Option Nat) (h : InvS' s) (hp : (s.
         ⟨(h.glob.out_unanswered q hq).1, Nat.lt_succ_of_lt (h.glob.out_unanswered q hq).2⟩
       reg_clean := h.glob.reg_clean
       chan_answer := h.glob.chan_answer
+      eofed_ready := h.glob.eofed_ready
       obj_answer := h.glob.obj_answer
       exc_answer := h.glob.exc_answer
       compl_le := h.glob.compl_le
@@ -406,6 +451,8 @@ theorem invS'_call {s : St} {t : Tid} (tmo : Option Nat) (h : InvS' s) (hp : (s.
       exact {
         bg_pc := by simp [hb]
         nowait_ok := by simp [ht.nowait_false_of_bg hb]
+        raising_pc := by simp [hra]
+        nodata := by simp [hra]
         seq_issued := fun _ => List.mem_cons_self
         at_c1 := fun _ _ => hfr
         at_c2 := by simp
@@ -423,7 +470,7 @@ theorem invS'_call {s : St} {t : Tid} (tmo : Option Nat) (h : InvS' s) (hp : (s.
       rw [setLoc_loc_ne _ _ hu]
       exact (h.thr u).transfer (fun _ x => List.mem_cons_of_mem _ x) (fun _ _ x => x) (fun _ _ a b => ⟨a, b⟩)
         (fun _ x => ⟨x, rfl, rfl, rfl, rfl, rfl⟩) (fun _ _ x => x) (fun x => x) (fun _ a b => ⟨a, b⟩)
-        (fun _ _ => rfl) (Nat.le_refl _)
+        (fun _ _ => rfl) (Nat.le_refl _) rfl (fun _ x => x)
   · intro u w
     show ((setLoc s t _).loc u).hasSeq = true → ((setLoc s t _).loc w).hasSeq = true →
       ((setLoc s t _).loc u).seq = ((setLoc s t _).loc w).seq → u = w
@@ -446,6 +493,7 @@ theorem invS'_call {s : St} {t : Tid} (tmo : Option Nat) (h : InvS' s) (hp : (s.
 
 theorem invS'_c1 {s : St} {t : Tid} (h : InvS' s) (hp : (s.loc t).pc = .c1) : InvS' (doC1 s t (s.loc t)) := by
   have ht := h.thr t
+  have hra : (s.loc t).raising = false := ht.raising_false (by rw [hp]; rfl)
   have hb : (s.loc t).bg = false := ht.bg_false_of_client (by rw [hp]; rfl)
   have hseq : (s.loc t).hasSeq = true := (hasSeq_iff _).2 ⟨hb, by rw [hp]; decide⟩
   obtain ⟨f1, f2, f3, f4, f5⟩ := ht.at_c1 hseq hp
@@ -453,30 +501,37 @@ theorem invS'_c1 {s : St} {t : Tid} (h : InvS' s) (hp : (s.loc t).pc = .c1) : In
   unfold doC1
   refine h.step' t _ rfl (setPc_hasSeq' _ (by rw [hp]; decide)) ?_ ?_ ?_
   · refine h.glob.updAt (s.loc t).seq rfl rfl rfl rfl rfl (fun r hr => ?_) (fun _ _ => rfl) (fun _ _ => rfl) hq
-      ?_ ?_ ?_ ?_ ?_
+      ?_ ?_ ?_ ?_ ?_ ?_ ?_
     · rw [setLoc_cells, setCell_cells_ne _ _ hr]
     · intro _; simp [f1, f4, f5]
     · simp [f1]
     · simp [f1]
     · simp [f5]
     · simp [f1]
+    · rw [setLoc_cells, setCell_cells_self]
+    · simp [f1]
   · exact {
       bg_pc := by simp [hb]
       nowait_ok := by simp [ht.nowait_false_of_bg hb]
+      raising_pc := by simp [hra]
+      nodata := by simp [hra]
       seq_issued := fun _ => ht.seq_issued hseq
       at_c1 := by simp
-      at_c2 := fun _ _ => ⟨f2, f3⟩
+      at_c2 := fun _ _ _ => ⟨f2, f3⟩
       cb_pc := by simpa [hp, PC.completing] using ht.cb_pc
       completing := by simp [PC.completing]
-      data_answer := ht.data_answer
+      data_answer := fun f a => (ht.data_answer f a).imp id (fun x => by rw [setLoc_cells, setCell_eofed_of]; exact x; rfl)
       at_w10 := by simp
-      result_ok := ht.result_ok
+      result_ok := fun e o a => by
+        obtain ⟨e', v, r1, r2, r3, r4⟩ := ht.result_ok e o a
+        exact ⟨e', v, r1, r2, r3, by rw [setLoc_cells, setCell_ready_of]; exact r4; rfl⟩
       self_dispatch := fun _ hr => by simp [f1] at hr
       dl_ttl := by simp [PC.inServe]
       wdl_le := by simp }
   · intro u hu
     have hne : (s.loc u).hasSeq = true → (s.loc u).seq ≠ (s.loc t).seq := fun a e => hu (h.seq_inj u t a hseq e)
     refine (h.thr u).transfer (fun _ x => x) ?_ (fun _ _ a b => ⟨a, b⟩) ?_ (fun _ _ x => x) ?_ ?_ ?_ (Nat.le_refl _)
+      rfl (fun r x => by rw [setLoc_cells, setCell_eofed_of]; exact x; rfl)
     · intro a _ fr
       exact freshSeq_of_eq fr (by rw [setLoc_cells, setCell_cells_ne _ _ (hne a)]) rfl (fun x => x) rfl rfl
     · intro q hq
@@ -487,12 +542,12 @@ theorem invS'_c1 {s : St} {t : Tid} (h : InvS' s) (hp : (s.loc t).pc = .c1) : In
     · intro _ _; rw [setLoc_cells, setCell_ttl_of]; rfl
 
 theorem invS'_c2_aux {s : St} {t : Tid} (p' : PC) (hp' : p' = .c3 ∨ p' = .w0) (h : InvS' s)
-    (hp : (s.loc t).pc = .c2) :
+    (hp : (s.loc t).pc = .c2) (hcl : s.closed = false) :
     InvS' { setLoc s t { s.loc t with pc := p' } with outstanding := s.outstanding ++ [(s.loc t).seq] } := by
   have ht := h.thr t
   have hb : (s.loc t).bg = false := ht.bg_false_of_client (by rw [hp]; rfl)
   have hseq : (s.loc t).hasSeq = true := (hasSeq_iff _).2 ⟨hb, by rw [hp]; decide⟩
-  obtain ⟨f2, f3⟩ := ht.at_c2 hseq hp
+  obtain ⟨f2, f3⟩ := ht.at_c2 hseq hp hcl
   have hq : (s.loc t).seq < s.seqCounter := h.glob.issued_lt _ (ht.seq_issued hseq)
   have hok : PC.FrameOK .c2 p' := by rcases hp' with rfl | rfl <;> decide
   have hmem : ∀ r, r ∈ s.outstanding ++ [(s.loc t).seq] → r ∈ s.outstanding ∨ r = (s.loc t).seq := by
@@ -517,18 +572,19 @@ theorem invS'_c2_aux {s : St} {t : Tid} (p' : PC) (hp' : p' = .c3 ∨ p' = .w0) 
         · subst x; exact ⟨f2, hq⟩
       reg_clean := h.glob.reg_clean
       chan_answer := h.glob.chan_answer
+      eofed_ready := h.glob.eofed_ready
       obj_answer := h.glob.obj_answer
       exc_answer := h.glob.exc_answer
       compl_le := h.glob.compl_le
       ready_compl := h.glob.ready_compl }
   · refine (ht.setPc p' hp hok).transfer (fun _ x => x) ?_ ?_ (fun _ x => ⟨x, rfl, rfl, rfl, rfl, rfl⟩)
-      (fun _ _ x => x) (fun x => x) (fun _ a b => ⟨a, b⟩) (fun _ _ => rfl) (Nat.le_refl _)
+      (fun _ _ x => x) (fun x => x) (fun _ a b => ⟨a, b⟩) (fun _ _ => rfl) (Nat.le_refl _) rfl (fun _ x => x)
     · intro _ b; rcases hp' with rfl | rfl <;> cases b
     · intro _ b; rcases hp' with rfl | rfl <;> cases b
   · intro u hu
     have hne : (s.loc u).hasSeq = true → (s.loc u).seq ≠ (s.loc t).seq := fun a e => hu (h.seq_inj u t a hseq e)
     refine (h.thr u).transfer (fun _ x => x) ?_ ?_ (fun _ x => ⟨x, rfl, rfl, rfl, rfl, rfl⟩)
-      (fun _ _ x => x) (fun x => x) (fun _ a b => ⟨a, b⟩) (fun _ _ => rfl) (Nat.le_refl _)
+      (fun _ _ x => x) (fun x => x) (fun _ a b => ⟨a, b⟩) (fun _ _ => rfl) (Nat.le_refl _) rfl (fun _ x => x)
     · intro a _ fr
       refine freshSeq_of_eq fr rfl rfl (fun x => ?_) rfl rfl
       rcases hmem _ x with x | x
@@ -556,15 +612,12 @@ theorem invS'_c2 {s : St} {t : Tid} (h : InvS' s) (hp : (s.loc t).pc = .c2) : In
       · exact .inl (setCell_cells_ne _ _ e)
     refine h.step' t _ rfl (by simp [Loc.hasSeq]) ?_ ?_ ?_
     · exact h.glob.clearReg rfl rfl rfl rfl rfl rfl (Nat.le_refl _) hcells
-    · exact thrOK_idle (ht.clearReg h.glob rfl rfl rfl rfl rfl rfl hcells) rfl hb (ht.nowait_false_of_bg hb)
-        (by
-          cases hc : (s.loc t).cb with
-          | none => rfl
-          | some q => have := ht.cb_pc q hc; rw [hp] at this; cases this)
-        rfl rfl (by simp)
+    · exact thrOK_idle (ht.clearReg h.glob rfl rfl rfl rfl rfl rfl rfl hcells) rfl hb (ht.nowait_false_of_bg hb)
+        (ht.raising_false (by rw [hp]; rfl)) (ht.cb_none (by rw [hp]; rfl)) rfl rfl (by simp)
     · intro u _
-      exact (h.thr u).clearReg h.glob rfl rfl rfl rfl rfl rfl hcells
-  · exact invS'_c2_aux _ (by split <;> simp) h hp
+      exact (h.thr u).clearReg h.glob rfl rfl rfl rfl rfl rfl rfl hcells
+  · rename_i hcl
+    exact invS'_c2_aux _ (by split <;> simp) h hp (by simpa using hcl)
 
 theorem invS'_c3 {s : St} {t : Tid} (h : InvS' s) (hp : (s.loc t).pc = .c3) : InvS' (doC3 s t (s.loc t)) := by
   have ht := h.thr t
@@ -574,15 +627,17 @@ theorem invS'_c3 {s : St} {t : Tid} (h : InvS' s) (hp : (s.loc t).pc = .c3) : In
   unfold doC3
   refine h.step' t _ rfl (setPc_hasSeq' _ (by rw [hp]; decide)) ?_ ?_ ?_
   · refine h.glob.updAt (s.loc t).seq rfl rfl rfl rfl rfl (fun r hr => ?_) (fun _ _ => rfl) (fun _ _ => rfl) hq
-      ?_ ?_ ?_ ?_ ?_
+      ?_ ?_ ?_ ?_ ?_ ?_ ?_
     · rw [setLoc_cells, setCell_cells_ne _ _ hr]
     · rw [setLoc_cells, setCell_cells_self]; exact h.glob.reg_clean _
     · rw [setLoc_cells, setCell_cells_self]; exact h.glob.obj_answer _
     · rw [setLoc_cells, setCell_cells_self]; exact h.glob.exc_answer _
     · exact h.glob.compl_le _
     · rw [setLoc_cells, setCell_cells_self]; exact h.glob.ready_compl _
+    · rw [setLoc_cells, setCell_cells_self]
+    · rw [setLoc_cells, setCell_cells_self]; exact h.glob.eofed_ready _
   · refine (ht.setPc .w0 hp (by decide)).transfer (fun _ x => x) ?_ ?_ ?_
-      (fun _ _ x => x) ?_ ?_ ?_ (Nat.le_refl _)
+      (fun _ _ x => x) ?_ ?_ ?_ (Nat.le_refl _) rfl (fun r x => by rw [setLoc_cells, setCell_eofed_of]; exact x; rfl)
     · intro _ b; cases b
     · intro _ b; cases b
     · intro q hq
@@ -597,6 +652,7 @@ theorem invS'_c3 {s : St} {t : Tid} (h : InvS' s) (hp : (s.loc t).pc = .c3) : In
   · intro u hu
     have hne : (s.loc u).hasSeq = true → (s.loc u).seq ≠ (s.loc t).seq := fun a e => hu (h.seq_inj u t a hseq e)
     refine (h.thr u).transfer (fun _ x => x) ?_ (fun _ _ a b => ⟨a, b⟩) ?_ (fun _ _ x => x) ?_ ?_ ?_ (Nat.le_refl _)
+      rfl (fun r x => by rw [setLoc_cells, setCell_eofed_of]; exact x; rfl)
     · intro a _ fr
       exact freshSeq_of_eq fr (by rw [setLoc_cells, setCell_cells_ne _ _ (hne a)]) rfl (fun x => x) rfl rfl
     · intro q hq
@@ -616,10 +672,14 @@ theorem invS'_d1 {s s' : St} {t : Tid} (h : InvS' s) (hp : (s.loc t).pc = .d1)
   split at hs
   · cases hs
   · rename_i f hd
+    have hra : (s.loc t).raising = false := ht.raising_false_of_data hd
     split at hs
     · rename_i hreg
       cases hs
       obtain ⟨g1, g2, g3⟩ := h.glob.reg_clean _ hreg
+      have eofd : ∀ r, (s.cells r).eofed = true →
+          ((setCell (markDispatched s f) f.seq { s.cells f.seq with reg := false }).cells r).eofed = true :=
+        fun r x => by rw [setCell_eofed_of]; exact x; rfl
       have hq : f.seq < s.seqCounter := Nat.lt_of_not_le (fun hle => by
         have := (h.glob.fresh _ hle).1
         rw [this] at hreg; cases hreg)
@@ -633,7 +693,13 @@ theorem invS'_d1 {s s' : St} {t : Tid} (h : InvS' s) (hp : (s.loc t).pc = .d1)
       have pne : ∀ r, r ≠ f.seq → (if r = f.seq then some t else s.popper r) = s.popper r :=
         fun r hr => if_neg hr
       refine h.step' t _ rfl (by simp [Loc.hasSeq, hp]) ?_ ?_ ?_
-      · refine h.glob.updAt f.seq rfl rfl rfl rfl rfl cne pne (fun _ _ => rfl) hq ?_ ?_ ?_ ?_ ?_
+      · refine h.glob.updAt f.seq rfl rfl rfl rfl rfl cne pne (fun _ _ => rfl) hq ?_ ?_ ?_ ?_ ?_ ?_ ?_
+        rotate_right 2
+        · simp only [setLoc_cells, setCell_cells_self]
+        · intro x
+          have : (s.cells f.seq).eofed = true := by
+            simpa only [setLoc_cells, setCell_cells_self] using x
+          rw [h.glob.eofed_unreg _ this] at hreg; cases hreg
         · simp
         · simp only [setLoc_cells, setCell_cells_self]; exact h.glob.obj_answer _
         · simp only [setLoc_cells, setCell_cells_self]; exact h.glob.exc_answer _
@@ -644,14 +710,18 @@ theorem invS'_d1 {s s' : St} {t : Tid} (h : InvS' s) (hp : (s.loc t).pc = .d1)
       · exact {
           bg_pc := by simp [PC.client]
           nowait_ok := by simpa [hp, PC.bgLoop] using ht.nowait_ok
+          raising_pc := by simp [hra]
+          nodata := by simp [hra]
           seq_issued := by simpa [Loc.hasSeq, hp] using ht.seq_issued
           at_c1 := by simp
           at_c2 := by simp
           cb_pc := by simp [PC.completing]
           completing := fun _ => ⟨f.seq, f, rfl, hd, rfl, by simp, by simp, g2, (rdy f.seq).trans g3, by simp, by simp⟩
-          data_answer := ht.data_answer
+          data_answer := fun g a => (ht.data_answer g a).imp id (eofd _)
           at_w10 := by simp
-          result_ok := ht.result_ok
+          result_ok := fun e o a => by
+            obtain ⟨e', v, r1, r2, r3, r4⟩ := ht.result_ok e o a
+            exact ⟨e', v, r1, r2, r3, (rdy _).trans r4⟩
           self_dispatch := fun a b c => by
             have b' := (rdy _).symm.trans b
             have a' : (s.loc t).hasSeq = true := by simpa [Loc.hasSeq, hp] using a
@@ -659,14 +729,16 @@ theorem invS'_d1 {s s' : St} {t : Tid} (h : InvS' s) (hp : (s.loc t).pc = .d1)
             · rw [show (s.cells (s.loc t).seq).ready = (s.cells f.seq).ready from by rw [e], g3] at b'
               cases b'
             · have c' : s.popper (s.loc t).seq = some t := (pne _ e).symm.trans c
-              have := ht.self_dispatch a' b' c'
-              rw [hp] at this; cases this
+              rcases ht.self_dispatch a' b' c' with x | x
+              · rw [hp] at x; cases x
+              · rw [hra] at x; cases x
           dl_ttl := fun a b => by
             have a' : (s.loc t).hasSeq = true := by simpa [Loc.hasSeq, hp] using a
             exact (ht.dl_ttl a' (by rw [hp]; rfl)).trans (ttl _).symm
           wdl_le := by simp }
       · intro u hu
         refine (h.thr u).transfer (fun _ x => x) ?_ (fun _ _ a b => ⟨a, b⟩) ?_ (fun _ _ x => x) ?_ ?_ ?_ (Nat.le_refl _)
+          rfl eofd
         · intro _ _ fr
           have : (s.loc u).seq ≠ f.seq := fun e => by
             have := fr.1
@@ -685,11 +757,13 @@ theorem invS'_d1 {s s' : St} {t : Tid} (h : InvS' s) (hp : (s.loc t).pc = .d1)
           · exact (pne _ e).symm.trans b
         · intro _ _; exact ttl _
     · cases hs
-      exact h.locOnly' _ same_glob rfl (ht.leaveServe (by rw [hp]; decide)) (leaveServe_hasSeq (by rw [hp]; decide))
+      exact h.locOnly' _ same_glob rfl (ht.leaveServe (by rw [hp]; decide) hra)
+        (leaveServe_hasSeq (by rw [hp]; decide))
 
 theorem invS'_d3 {s s' : St} {t : Tid} (h : InvS' s) (hp : (s.loc t).pc = .d3)
     (hs : doD3 s t (s.loc t) = some s') : InvS' s' := by
   have ht := h.thr t
+  have hra : (s.loc t).raising = false := ht.raising_false (by rw [hp]; rfl)
   unfold doD3 at hs
   split at hs
   · rename_i q f hcb hd
@@ -699,10 +773,20 @@ theorem invS'_d3 {s s' : St} {t : Tid} (h : InvS' s) (hp : (s.loc t).pc = .d3)
     have hq : q < s.seqCounter := Nat.lt_of_not_le (fun hle => by
       have := (h.glob.fresh _ hle).2.2.2.1
       rw [c4] at this; cases this)
-    have hans := ht.data_answer f hd
-    rw [c3] at hans
+    have hne : (s.cells q).eofed = false := h.glob.not_eofed c7
+    have hans : s.answer q = some (f.exc, f.val) := by
+      rcases ht.data_answer f hd with x | x
+      · rw [c3] at x; exact x
+      · rw [c3, hne] at x; cases x
     refine h.step' t _ rfl (setPc_hasSeq' _ (by rw [hp]; decide)) ?_ ?_ ?_
     · refine h.glob.updAt q rfl rfl rfl rfl rfl (fun r hr => ?_) (fun _ _ => rfl) (fun _ _ => rfl) hq ?_ ?_ ?_ ?_ ?_
+        ?_ ?_
+      rotate_right 2
+      · rw [setLoc_cells, setCell_cells_self]
+      · rw [setLoc_cells, setCell_cells_self]
+        intro x
+        have : (s.cells q).eofed = true := x
+        rw [hne] at this; cases this
       · rw [setLoc_cells, setCell_cells_ne _ _ hr]
       · rw [setLoc_cells, setCell_cells_self]; exact h.glob.reg_clean _
       · rw [setLoc_cells, setCell_cells_self]; exact h.glob.obj_answer _
@@ -718,19 +802,24 @@ theorem invS'_d3 {s s' : St} {t : Tid} (h : InvS' s) (hp : (s.loc t).pc = .d3)
     · exact {
         bg_pc := by simp [PC.client]
         nowait_ok := by simpa [hp, PC.bgLoop] using ht.nowait_ok
+        raising_pc := by simp [hra]
+        nodata := by simp [hra]
         seq_issued := by simpa [Loc.hasSeq, hp] using ht.seq_issued
         at_c1 := by simp
         at_c2 := by simp
         cb_pc := by simp [PC.completing]
         completing := fun _ => ⟨q, f, hcb, hd, c3, c4, by simpa using c5, c6, by simpa using c7, by simp, by simp⟩
-        data_answer := ht.data_answer
+        data_answer := fun f a => (ht.data_answer f a).imp id (fun x => by rw [setLoc_cells, setCell_eofed_of]; exact x; rfl)
         at_w10 := by simp
-        result_ok := ht.result_ok
+        result_ok := fun e o a => by
+          obtain ⟨e', v, r1, r2, r3, r4⟩ := ht.result_ok e o a
+          exact ⟨e', v, r1, r2, r3, by rw [setLoc_cells, setCell_ready_of]; exact r4; rfl⟩
         self_dispatch := fun a b c => by
           have a' : (s.loc t).hasSeq = true := by simpa [Loc.hasSeq, hp] using a
           rw [setLoc_cells, setCell_ready_of] at b
-          · have := ht.self_dispatch a' b c
-            rw [hp] at this; cases this
+          · rcases ht.self_dispatch a' b c with x | x
+            · rw [hp] at x; cases x
+            · rw [hra] at x; cases x
           · rfl
         dl_ttl := fun a b => by
           have a' : (s.loc t).hasSeq = true := by simpa [Loc.hasSeq, hp] using a
@@ -739,15 +828,17 @@ theorem invS'_d3 {s s' : St} {t : Tid} (h : InvS' s) (hp : (s.loc t).pc = .d3)
           · rfl
         wdl_le := by simp }
     · intro u hu
-      refine (h.thr u).other_completing hu c4 rfl rfl rfl rfl rfl (fun r hr => ?_) (fun _ _ => rfl) ?_ ?_
+      refine (h.thr u).other_completing hu c4 rfl rfl rfl rfl rfl (fun r hr => ?_) (fun _ _ => rfl) ?_ ?_ rfl ?_
       · rw [setLoc_cells, setCell_cells_ne _ _ hr]
       · intro x; rw [setLoc_cells, setCell_cells_self]; exact x
+      · rw [setLoc_cells, setCell_cells_self]
       · rw [setLoc_cells, setCell_cells_self]
   · cases hs
 
 theorem invS'_d4 {s s' : St} {t : Tid} (h : InvS' s) (hp : (s.loc t).pc = .d4)
     (hs : doD4 s t (s.loc t) = some s') : InvS' s' := by
   have ht := h.thr t
+  have hra : (s.loc t).raising = false := ht.raising_false (by rw [hp]; rfl)
   unfold doD4 at hs
   split at hs
   · rename_i q f hcb hd
@@ -758,10 +849,20 @@ theorem invS'_d4 {s s' : St} {t : Tid} (h : InvS' s) (hp : (s.loc t).pc = .d4)
     have hq : q < s.seqCounter := Nat.lt_of_not_le (fun hle => by
       have := (h.glob.fresh _ hle).2.2.2.1
       rw [c4] at this; cases this)
-    have hans := ht.data_answer f hd
-    rw [c3] at hans
+    have hne : (s.cells q).eofed = false := h.glob.not_eofed c7
+    have hans : s.answer q = some (f.exc, f.val) := by
+      rcases ht.data_answer f hd with x | x
+      · rw [c3] at x; exact x
+      · rw [c3, hne] at x; cases x
     refine h.step' t _ rfl (setPc_hasSeq' _ (by rw [hp]; decide)) ?_ ?_ ?_
     · refine h.glob.updAt q rfl rfl rfl rfl rfl (fun r hr => ?_) (fun _ _ => rfl) (fun _ _ => rfl) hq ?_ ?_ ?_ ?_ ?_
+        ?_ ?_
+      rotate_right 2
+      · rw [setLoc_cells, setCell_cells_self]
+      · rw [setLoc_cells, setCell_cells_self]
+        intro x
+        have : (s.cells q).eofed = true := x
+        rw [hne] at this; cases this
       · rw [setLoc_cells, setCell_cells_ne _ _ hr]
       · rw [setLoc_cells, setCell_cells_self]; exact h.glob.reg_clean _
       · rw [setLoc_cells, setCell_cells_self]
@@ -777,20 +878,25 @@ theorem invS'_d4 {s s' : St} {t : Tid} (h : InvS' s) (hp : (s.loc t).pc = .d4)
     · exact {
         bg_pc := by simp [PC.client]
         nowait_ok := by simpa [hp, PC.bgLoop] using ht.nowait_ok
+        raising_pc := by simp [hra]
+        nodata := by simp [hra]
         seq_issued := by simpa [Loc.hasSeq, hp] using ht.seq_issued
         at_c1 := by simp
         at_c2 := by simp
         cb_pc := by simp [PC.completing]
         completing := fun _ => ⟨q, f, hcb, hd, c3, c4, by simpa using c5, c6, by simpa using c7,
           by simpa using c8, by simp⟩
-        data_answer := ht.data_answer
+        data_answer := fun f a => (ht.data_answer f a).imp id (fun x => by rw [setLoc_cells, setCell_eofed_of]; exact x; rfl)
         at_w10 := by simp
-        result_ok := ht.result_ok
+        result_ok := fun e o a => by
+          obtain ⟨e', v, r1, r2, r3, r4⟩ := ht.result_ok e o a
+          exact ⟨e', v, r1, r2, r3, by rw [setLoc_cells, setCell_ready_of]; exact r4; rfl⟩
         self_dispatch := fun a b c => by
           have a' : (s.loc t).hasSeq = true := by simpa [Loc.hasSeq, hp] using a
           rw [setLoc_cells, setCell_ready_of] at b
-          · have := ht.self_dispatch a' b c
-            rw [hp] at this; cases this
+          · rcases ht.self_dispatch a' b c with x | x
+            · rw [hp] at x; cases x
+            · rw [hra] at x; cases x
           · rfl
         dl_ttl := fun a b => by
           have a' : (s.loc t).hasSeq = true := by simpa [Loc.hasSeq, hp] using a
@@ -799,9 +905,10 @@ theorem invS'_d4 {s s' : St} {t : Tid} (h : InvS' s) (hp : (s.loc t).pc = .d4)
           · rfl
         wdl_le := by simp }
     · intro u hu
-      refine (h.thr u).other_completing hu c4 rfl rfl rfl rfl rfl (fun r hr => ?_) (fun _ _ => rfl) ?_ ?_
+      refine (h.thr u).other_completing hu c4 rfl rfl rfl rfl rfl (fun r hr => ?_) (fun _ _ => rfl) ?_ ?_ rfl ?_
       · rw [setLoc_cells, setCell_cells_ne _ _ hr]
       · intro x; rw [setLoc_cells, setCell_cells_self]; exact x
+      · rw [setLoc_cells, setCell_cells_self]
       · rw [setLoc_cells, setCell_cells_self]
   · cases hs
 
@@ -823,7 +930,13 @@ theorem invS'_d5 {s s' : St} {t : Tid} (h : InvS' s) (hp : (s.loc t).pc = .d5)
     have ceq : (if q = q then s.completions q + 1 else s.completions q) = 1 := by
       rw [if_pos rfl, c6]
     refine h.step' t _ rfl (leaveServe_hasSeq (by rw [hp]; decide)) ?_ ?_ ?_
-    · refine h.glob.updAt q rfl rfl rfl rfl rfl (fun r hr => ?_) (fun _ _ => rfl) cne hq ?_ ?_ ?_ ?_ ?_
+    · refine h.glob.updAt q rfl rfl rfl rfl rfl (fun r hr => ?_) (fun _ _ => rfl) cne hq ?_ ?_ ?_ ?_ ?_ ?_ ?_
+      rotate_right 2
+      · show ((setCell _ _ _).cells q).eofed = _
+        rw [setCell_cells_self]
+      · show _ → ((setCell _ _ _).cells q).ready = true
+        rw [setCell_cells_self]
+        intro _; rfl
       · show (setCell _ _ _).cells r = _
         rw [setCell_cells_ne _ _ hr]
       · show ((setCell _ _ _).cells q).reg = true → _
@@ -845,9 +958,19 @@ theorem invS'_d5 {s s' : St} {t : Tid} (h : InvS' s) (hp : (s.loc t).pc = .d5)
           rw [c9]; rfl
         · show (s.cells q).isExc.isSome = true
           rw [c8]; rfl
-    · exact thrOK_leaveServe (fun hn => (ht.nowait_ok hn).1) (fun hb => ht.seq_issued ((hasSeq_iff _).2 ⟨hb, by rw [hp]; decide⟩)) ht.result_ok
+    · refine thrOK_leaveServe (fun hn => (ht.nowait_ok hn).1) (ht.raising_false (by rw [hp]; rfl))
+        (fun hb => ht.seq_issued ((hasSeq_iff _).2 ⟨hb, by rw [hp]; decide⟩)) (fun e o a => ?_)
+      obtain ⟨e', v, r1, r2, r3, r4⟩ := ht.result_ok e o a
+      refine ⟨e', v, r1, r2, r3, ?_⟩
+      show ((setCell _ _ _).cells _).ready = true
+      rw [setCell_cells]; split
+      · rfl
+      · exact r4
     · intro u hu
-      refine (h.thr u).other_completing hu c4 rfl rfl rfl rfl rfl (fun r hr => ?_) cne ?_ ?_
+      refine (h.thr u).other_completing hu c4 rfl rfl rfl rfl rfl (fun r hr => ?_) cne ?_ ?_ rfl ?_
+      rotate_right
+      · show ((setCell _ _ _).cells q).eofed = _
+        rw [setCell_cells_self]
       · show (setCell _ _ _).cells r = _
         rw [setCell_cells_ne _ _ hr]
       · intro _
@@ -880,9 +1003,10 @@ theorem invS'_peer_aux {s : St} {q : Seq} (exc : Bool) (v : Nat) (h : InvS' s) (
       reg_clean := h.glob.reg_clean
       chan_answer := fun f hf => by
         rcases List.mem_append.1 hf with x | x
-        · exact hans _ _ (h.glob.chan_answer f x)
+        · exact (h.glob.chan_answer f x).imp (hans _ _) id
         · rw [List.mem_singleton.1 x]
-          exact if_pos rfl
+          exact .inl (if_pos rfl)
+      eofed_ready := h.glob.eofed_ready
       obj_answer := fun r w hw => by
         obtain ⟨e, he⟩ := h.glob.obj_answer r w hw
         exact ⟨e, hans _ _ he⟩
@@ -893,7 +1017,7 @@ theorem invS'_peer_aux {s : St} {q : Seq} (exc : Bool) (v : Nat) (h : InvS' s) (
       ready_compl := h.glob.ready_compl }
   · intro u
     refine (h.thr u).transfer (fun _ x => x) ?_ ?_ (fun _ x => ⟨x, rfl, rfl, rfl, rfl, rfl⟩) hans (fun x => x)
-      (fun _ a b => ⟨a, b⟩) (fun _ _ => rfl) (Nat.le_refl _)
+      (fun _ a b => ⟨a, b⟩) (fun _ _ => rfl) (Nat.le_refl _) rfl (fun _ x => x)
     · intro _ _ fr
       have : (s.loc u).seq ≠ q := hnone _ fr.2.1 fr.2.2.1
       exact freshSeq_of_eq fr rfl (ane _ this) List.mem_of_mem_erase rfl rfl
@@ -938,6 +1062,7 @@ theorem invS'_init : InvS' init where
     out_unanswered := by simp [init]
     reg_clean := by simp [init]
     chan_answer := by simp [init]
+    eofed_ready := by simp [init]
     obj_answer := by simp [init]
     exc_answer := by simp [init]
     compl_le := by simp [init]
@@ -945,6 +1070,8 @@ theorem invS'_init : InvS' init where
   thr := fun t => {
     bg_pc := by simp [init]
     nowait_ok := by simp [init]
+    raising_pc := by simp [init]
+    nodata := by simp [init]
     seq_issued := by simp [init, Loc.hasSeq]
     at_c1 := by simp [init]
     at_c2 := by simp [init]
@@ -1089,6 +1216,8 @@ theorem invS_cexS : InvS cexS where
   completing := fun t => by rcases cexS_loc t with h | h <;> rw [h] <;> simp [PC.completing]
   chan_answer := by simp [cexS]
   data_answer := fun t => by rcases cexS_loc t with h | h <;> rw [h] <;> simp
+  eofed_unreg := by simp [cexS]
+  raising_pc := fun t => by rcases cexS_loc t with h | h <;> rw [h] <;> simp
   obj_answer := by simp [cexS]
   exc_answer := by simp [cexS]
   compl_le := by simp [cexS]
